@@ -127,7 +127,8 @@ def handle (j : Json) : R Json := do
     let ok := admits att (st.modules.length + 1) (st.modules.length + 1) ⟨st.modules, [], [], []⟩ implShutdown
     let sorted := if ok then implShutdown else getSortedModules st.modules att (fun _ => 0)
     let log := if st.errors.isEmpty then
-        st.log ++ waitPhase st sched ++ [Ev.shutdownbegin] ++ st.modules.map Ev.stopPoll ++ sorted.map Ev.shutdown
+        st.log ++ waitPhase st sched ++ [Ev.shutdownbegin] ++ st.modules.map Ev.stopPoll ++
+          (st.modules.filter (threadsOf st).contains).map Ev.stopPoll ++ sorted.map Ev.shutdown
       else st.log
     return Json.mkObj [("modules", jstrs st.modules), ("errors", jarr (st.errors.map errJson)),
       ("ioDict", jarr (st.ioDict.map pairJson)), ("edges", jarr (st.edges.map pairJson)),
